@@ -222,6 +222,26 @@ func (s *Sim) checkSearch(when string) {
 			}
 		}
 	}
+	// search by hash: exactly the indexed transaction, and nothing for a hash that is not indexed
+	for n, e := range model {
+		if n > 4 {
+			break
+		}
+		if e.stale {
+			continue // (the recorded stale-entry finding is judged by the sweeps above)
+		}
+		r, err := txSearch(s.node, fmt.Sprintf("tx.hash='%X'", e.hash), false, 1, 30, "asc")
+		if err != nil || r.TotalCount != 1 || len(r.Txs) != 1 || r.Txs[0] == nil || r.Txs[0].Height != e.height {
+			s.violate("C42", "hash-search-misses-indexed-tx", "hash", fmt.Sprintf("%s: search by hash %X (indexed at height %d): err=%v result=%+v", when, e.hash, e.atHeight, err, r))
+		}
+	}
+	for _, probe := range [][]byte{bytes.Repeat([]byte{0xAB}, 32), bytes.Repeat([]byte{0x01}, 32)} {
+		r, err := txSearch(s.node, fmt.Sprintf("tx.hash='%X'", probe), false, 1, 30, "asc")
+		if err == nil && (r.TotalCount != 0 || len(r.Txs) != 0) {
+			s.violate("C42", "hash-search-reports-unindexed-tx", "hash", fmt.Sprintf("%s: search by a hash that was never indexed reports total %d with %d entries (first entry nil: %v)", when, r.TotalCount, len(r.Txs), len(r.Txs) > 0 && r.Txs[0] == nil))
+		}
+		s.res.Probe("hash_search_for_unindexed_tx")
+	}
 	s.res.Probe("search_sweeps")
 	s.res.Case(fmt.Sprintf("search/%s/indexed=%d/signers=%d/recipients=%d", when[:minInt(len(when), 8)], len(model), len(bySigner), len(byRecipient)))
 }
